@@ -25,6 +25,21 @@ GENERIC_STRATS = {"quick": ("none", "use-local", "use-base"),
                   "thorough": ("none", "use-base", "use-local", "use-remote", "union", "clear", "mergetool")}
 
 
+def witness_F16():
+    from sx.values import py_equal, json_identical, land, lnot
+
+    def h(E):
+        l, r = E.scalar("l"), E.scalar("r")
+        E.assume(land(py_equal(l, r), lnot(json_identical(l, r))))
+        m1, d1 = fam_merge.merge({}, {"a": l}, {"a": r}, "none")
+        m2, d2 = fam_merge.merge({}, {"a": r}, {"a": l}, "none")
+        c1, c2 = fam_merge.conflicted(d1), fam_merge.conflicted(d2)
+        E.check("symmetry-conflict-verdict", c1 == c2)
+        if not c1:
+            E.check("symmetry-merged-identical", json_identical(m1, m2))
+    return h, dict(reset=common.nbdime_reset)
+
+
 def main():
     common.silence_logging()
     t = common.tier()
@@ -38,8 +53,23 @@ def main():
     r = runner.explore("harness.fam_merge", fam_merge.triple_shards(t, (PROP,), kn),
                        nproc=common.nproc(), budget_s=400 if t == "quick" else 2400)
     chk.add("generic-symmetry", r)
-    from . import fam_nbmerge
-    fam_nbmerge.add_parts(chk, PROP, t, kn)
+    from . import fam_nbmerge as F
+    r = runner.explore("harness.fam_nbmerge", F.nblaw_shards(t, (PROP,), kn), nproc=common.nproc(),
+                       budget_s=400 if t == "quick" else 3000)
+    chk.add("notebook-laws-and-symmetry", r)
+    chk.bounds["notebook-laws"] = ("one-cell bases over %s templates x every action of X (17 code / 12 markdown) x "
+                                   "<=1 insertion x notebook-level {keep, md_edit, minor} x ids on/off x CLI "
+                                   "configurations %s; two-cell base(s) x 6 actions per cell" % (
+                                       "8" if t == "quick" else "14",
+                                       "inline / use-local / inline+use-local+remove" if t == "quick" else "7 (incl. mergetool)"))
+    chk.bounds["notebook-symmetry"] = "one-cell bases (3 quick / 14 thorough) local x remote actions and insertion combinations; two-cell base x 6 actions; default strategy"
+    chk.stubs += F.STUBS
+    if "F16" in known:
+        w = runner.explore_inline(witness_F16(), max_violations=1)
+        if w.violations:
+            v = w.violations[0]["values"]
+            chk.known_finding("F16", "merge({}, {'a': %r}, {'a': %r}) is conflict-free but swapping the sides "
+                              "changes the merged value's JSON type" % (v.get("l"), v.get("r")))
     chk.bounds["generic-laws"] = ("b, x lists of 0..%d symbolic ints; lists of 0..2 elements of docs.ALTS_MERGE "
                                   "(scalar, lists, object, two multi-line strings); objects over keys {a,b}; "
                                   "root strategies %s" % (3 if t == "quick" else 4, list(GENERIC_STRATS[t])))
